@@ -397,10 +397,17 @@ func judgeStep(st BStep, tree *Iface, o BStepObs) (string, int) {
 		return pre + "driver problem: " + o.Impl.Problem, cmp
 	}
 	c2s, rest := SplitFrames(o.C2S)
+	s2c, rest2 := SplitFrames(o.S2C)
+	if st.API == "send" && st.Flags&varlink.Oneway != 0 {
+		// the driver fences a oneway call with a GetInfo on the same connection: strip that exchange
+		if len(c2s) != 2 || len(s2c) != 1 || !bytes.Contains(c2s[1], []byte("org.varlink.service.GetInfo")) {
+			return pre + fmt.Sprintf("a oneway call followed by the sentinel GetInfo put %d frames on the wire and got %d back (want 2 and 1: no bytes for the oneway call): %s", len(c2s), len(s2c), describeFrames(o.S2C)), cmp
+		}
+		c2s, s2c = c2s[:1], nil
+	}
 	if len(rest) != 0 || len(c2s) != 1 {
 		return pre + fmt.Sprintf("%d call frames on the wire (+%d stray bytes), want exactly one", len(c2s), len(rest)), cmp
 	}
-	s2c, rest2 := SplitFrames(o.S2C)
 	if len(rest2) != 0 {
 		return pre + "reply stream not NUL-terminated", cmp
 	}
